@@ -93,6 +93,10 @@ def hand_packages(rng):
            "type G1 struct {\n\t*GG\n\tA int\n}\n\ntype GG struct {\n\t*GGG\n\tX int\n}\n\ntype GGG struct {\n\tY int\n}\n\ntype G2 struct {\n\tB int\n\tC int\n}\n")
     out.append({"cmd": "map", "flags": ["-path=../dest"], "files": {"src/s.go": src, "dest/d.go": dest}, "cwd": "src", "gofile": "s.go",
                 "types": ["D", "P"], "all_types": ["D", "P"], "setup": [], "feats": {"map": 1, "hand-ptr-chains": 1}, "star": False, "nexec": 12})
+    # enum with every flag: the generated file declares `const _<t>_max = …`, `var _<t>_values …`; they must not become
+    # members when the command runs again over its own output
+    out.append(detgen.gen_enum_pkg(rng, {"flags": ["-bit", "-json", "-text", "-sql"]}))
+    out.append(detgen.gen_rest_pkg(rng, {"headers": True}))
     return out
 
 
@@ -257,7 +261,9 @@ def history(ctx, roots, job):
     for d, f in zip(dirs, fresh):
         p = d.shoot(args)
         rep.append(p.returncode == 0 and d.outputs() == f)
-    obs["repeat"] = all(rep)
+    # and a third time in the first directory (an output that feeds back could oscillate with period two)
+    p3 = dirs[0].shoot(args)
+    obs["repeat"] = all(rep) and p3.returncode == 0 and dirs[0].outputs() == fresh[0]
     # delete the outputs, run again
     d = dirs[1 % nexec]
     d.delete_outputs()
